@@ -252,11 +252,19 @@ def decode_log(ilog: np.ndarray, seq: int) -> list[dict]:
 TYPE_NAMES = {0: "INIT", 1: "FAST", 2: "SLOW", 3: "BURNIN", 4: "POSTERIOR"}
 
 
-def mk_epochs(spec) -> list[EpochConfig]:
-    """spec: list of [type:int, duration, thinning] (without the initial epoch)."""
+def mk_epochs(spec, share=False) -> list[EpochConfig]:
+    """spec: list of [type:int, duration, thinning] (without the initial epoch).
+    share: consecutive equal entries are the *same* EpochConfig object (as in `[cfg] * 3` or repeated
+    `append_epoch(cfg)`)."""
     out = [EpochConfig(EpochType.INITIAL_VALUES, 1, 1, None)]
+    prev = None
     for t, d, k in spec:
-        out.append(EpochConfig(EpochType(int(t)), int(d), int(k), None))
+        if share and prev is not None and prev[0] == (int(t), int(d), int(k)):
+            out.append(prev[1])
+            continue
+        cfg = EpochConfig(EpochType(int(t)), int(d), int(k), None)
+        prev = ((int(t), int(d), int(k)), cfg)
+        out.append(cfg)
     return out
 
 
@@ -294,6 +302,10 @@ def gen_schedule(rng: np.random.Generator, max_epochs=6, max_dur=12, allow_thin=
             else:
                 k = int(rng.integers(1, d + 1))
         spec.append([t, d, k])
+    if rng.random() < 0.3 and len(spec) < max_epochs + 1:
+        # an epoch repeated with exactly the same configuration right after itself
+        j = int(rng.integers(len(spec)))
+        spec.insert(j, list(spec[j]))
     return spec
 
 
